@@ -4,7 +4,7 @@ import json
 import os
 
 import vflib
-from vflib import trace_stage, world_stage, log
+from vflib import trace_stage, world_stage, mc_stage, log
 
 CHECKS = {}
 LEVELS = {}
@@ -53,6 +53,10 @@ def c09(run):
     trace_stage(run, "sbf-tables", "supply",
                 nontrivial=lambda e: e["in"]["supply"].get("Q", 1) < e["in"]["supply"].get("P", 1),
                 keyfn=lambda e: e["in"]["supply"])
+    # R1: every placement of the budget (reservation automaton), every window position and length:
+    # never less service than the recorded table claims, and the table is attained at every length
+    world_stage(run, "placements", "resv", "MCReservation.tla", "MCReservation.cfg", slim=("id", "Q", "D", "P", "sbf"),
+                witness=lambda r: [["%d %d" % (r["id"], x)] for x in range(len(r["sbf"]))])
 
 
 def _tagged(e, *tags):
@@ -71,6 +75,11 @@ def c10(run):
     trace_stage(run, "eta-tables", "eta",
                 nontrivial=lambda e: "eta" in e["out"] and len(set(e["out"]["eta"])) > 2,
                 keyfn=lambda e: e["in"].get("m"))
+    # R1: explicit event generators (arrivals >= T apart + per-event delay; delta-min prefixes; delayed copies;
+    # superposition), every window position and length: never more events than the recorded table claims;
+    # for Periodic / Sporadic the table is attained at every window length
+    world_stage(run, "event-generators", "procs", "MCArrivalProc.tla", "MCArrivalProc.cfg", slim=("id", "gens", "eta"),
+                witness=lambda r: ([["%d %d" % (r["id"], x)] for x in range(1, len(r["eta"]))] if r.get("attained") else []))
 
 
 @check("C11")
@@ -119,6 +128,8 @@ def c08(run):
     run.assumptions += ["offsets are inside the busy window (premise of C08)", "supplies are 1-Lipschitz with sbf(0)=0"]
     trace_stage(run, "search", "search",
                 nontrivial=lambda e: e["op"] == "maxrt" or max(e["in"]["w"]) > 0)
+    # R3: the iteration of the implementation, as a state machine, computes Lfp (and terminates)
+    mc_stage(run, "kleene-iteration", "MCFixedPoint.tla", "MCFixedPoint.cfg")
 
 
 @check("C06")
@@ -287,6 +298,35 @@ def _cache_stage(run, kind):
                 session_key=lambda ln: '"op":"new"' in ln,
                 nontrivial=lambda e: e["op"] in ("q", "it_next", "least") and e.get("ans", 0) > 1,
                 keyfn=lambda e: e)
+    # R3: the cache machine is history independent (exhaustive over operation sequences of length <= 8)
+    mc_stage(run, "cache-machine", "MCCurveCache.tla", "MCCurveCache.cfg", env={"KIND": kind, "HIST": "0"})
+    # spec -> impl: behaviours generated by TLC from the machine are replayed on the real objects
+    wd = run.sub("cache-replay")
+    n = 2500 if run.tier == "thorough" else 250
+    rc, out = vflib.tlc_mc(os.path.join(vflib.SPEC, "mc"), "MCCurveCache.tla", "MCCurveCache.cfg", wd, "simulate",
+                           env_extra={"KIND": kind, "HIST": "1"}, workers=1, timeout=900,
+                           extra_args=["-seed", str(run.seed), "-simulate", "num=%d" % n, "-depth", "12"])
+    hs = []
+    seen = set()
+    for ln in out.splitlines():
+        ln = ln.strip()
+        if ln.startswith('"HISTORY '):
+            js = json.loads(ln)[len("HISTORY "):]
+            if js not in seen:
+                seen.add(js)
+                hs.append(js)
+    if not hs:
+        raise vflib.ToolError("TLC generated no histories:\n" + out[-2000:])
+    hs = hs[:: max(1, len(hs) // (4 * n))][: 4 * n]
+    hpath = os.path.join(wd, "histories.ndjson")
+    with open(hpath, "w") as f:
+        f.write("\n".join(hs) + "\n")
+    trace_stage(run, "cache-replay", "cache", spec="TraceCache.tla", cfg="TraceCache.cfg",
+                extra=["--kind", kind, "--histories", hpath],
+                session_key=lambda ln: '"op":"new"' in ln,
+                nontrivial=lambda e: e["op"] in ("q", "it_next", "least") and e.get("ans", 0) > 1,
+                keyfn=lambda e: e)
+    run.stage("cache-replay-source", kind="spec-to-impl", behaviours=len(hs))
 
 
 @check("C12")
@@ -314,6 +354,9 @@ def c13(run):
                        "respect the original prefix; cache stage: histories of queries on shared ExtrapolatingCurve clones replayed through "
                        "the CurveCache state machine; non-trivial = table not constant")
     trace_stage(run, "extrapolation", "c13", nontrivial=lambda e: len(set(e["out"].get("ext", []))) > 2)
+    # R1 (c): an extended prefix still bounds every event sequence that respects the original prefix
+    world_stage(run, "prefix-sequences", "procs", "MCArrivalProc.tla", "MCArrivalProc.cfg", slim=("id", "gens", "eta"),
+                extra=["--ext", "1"], witness=lambda r: [])
     _cache_stage(run, "arrival")
 
 
